@@ -13,7 +13,7 @@ import (
 func init() {
 	register("C13", PropCheck{
 		Title:      "A storage error on Postgres never wedges the store or loses acknowledged writes",
-		Explain:    "Transaction typestate, decided on every path including the error paths no test takes: (R1) pgDb.tx is stored only nil or the result of BeginTx, and every Commit/Rollback on the stored handle is followed by storing nil on every path (ended exactly once); (R2) in every operation that opens the implicit transaction (Put, Get), every path from the opener's success edge to a return passes a closer (a method that commits or rolls back the stored handle; a deferred closer counts from its registration), and the error of every committing closer flows into the operation's error result; (R3) for a local BeginTx result (Dump, ensureTable) every path from the success edge to a return passes Commit or Rollback (deferred counts) and the failure edge does not touch the handle; (R4) exported methods that do not open a transaction (Abort, Stop, Close) dereference the stored handle only behind a non-nil test; (R5) explicit mode: multi is set only after the opener succeeded, and the single-operation closer commits only on the multi==false edge.",
+		Explain:    "Transaction typestate, decided on every path including the error paths no test takes: (R1) pgDb.tx is stored only nil or the result of BeginTx, and every Commit/Rollback on the stored handle is followed by storing nil on every path (ended exactly once); (R2) in every operation that opens the implicit transaction (Put, Get), every path from the opener's success edge (the opener itself, or an unexported helper that calls it, reports success only behind its success edge and returns nothing but success afterwards) to a return passes a closer (a method that commits or rolls back the stored handle; a deferred closer counts from its registration), and the error of every committing closer flows into the operation's error result; (R3) for a local BeginTx result (Dump, ensureTable) every path from the success edge to a return passes Commit or Rollback (deferred counts) and the failure edge does not touch the handle; (R4) exported methods that do not open a transaction (Abort, Stop, Close) dereference the stored handle only behind a non-nil test; (R5) explicit mode: multi is set only after the opener succeeded, and every commit reached from a single operation (Put, Get) lies behind the multi==false edge, tested in the closer or at its call site.",
 		NotDecided: "that later operations return exactly the acknowledged values (history-level); behaviour of the driver itself after a failed statement; clearing of multi when a transaction ends (TestPostgresTxStartStop pins that it stays set).",
 		Run:        runC13,
 	})
